@@ -143,6 +143,7 @@ type op struct {
 	Dps     []mmgen.Dp  `json:"dps,omitempty"`     // bmap / bmetrics: the batch
 	Jit     int         `json:"jit,omitempty"`     // bmap / bmetrics: Gosched calls before delivering
 	S       string      `json:"s,omitempty"`       // info / evict (stages stream): the address whose lookup result arrives / whose cache entry expires
+	Lex     bool        `json:"lex,omitempty"`     // recv / bmap / bmetrics: the datapoints are LINES parsed by the real lexer with its metric pool (lexed.go); noise: R lines
 	NoCache bool        `json:"nocache,omitempty"` // info: the result releases the queue but Peek keeps missing (the next batch raced the lookup, or the answer is not cached)
 	Seed    []seedEntry `json:"seed,omitempty"`    // seed: the register becomes this map; bmap: the batch map starts as this map
 }
@@ -263,9 +264,25 @@ func runProg(em *hlib.Emitter, in input, final int) {
 	var sources []consumed
 	okReg := func(i int) bool { return i >= 0 && i < in.NRegs }
 	nmerge, nlate := 0, 0
+	// lexed datapoints are received as the parser does: the run of lines for one register is lexed
+	// first, then folded through Receive (which hands the metrics back to the pool)
+	var pending []*gostatsd.Metric
+	pendReg, nlexed := -1, 0
+	flushPending := func() {
+		for _, m := range pending {
+			regs[pendReg].Receive(m)
+		}
+		pending, pendReg = nil, -1
+	}
 	msg := hlib.Recover(func() {
+		defer flushPending()
 		for at, o := range in.Ops {
+			if !(o.Op == "recv" && o.Lex && o.R == pendReg) {
+				flushPending()
+			}
 			switch o.Op {
+			case "noise":
+				noise(o.R)
 			case "seed":
 				if !okReg(o.R) || dead[o.R] {
 					continue
@@ -281,6 +298,14 @@ func runProg(em *hlib.Emitter, in input, final int) {
 				}
 				if nmerge > 0 {
 					nlate++
+				}
+				if o.Lex {
+					if m, snap, ok := lexOne(*o.Dp); ok {
+						pending, pendReg = append(pending, m), o.R
+						nlexed++
+						ops = append(ops, hlib.App("ORecv", hlib.Nat(o.R), snap.Coq()))
+						continue
+					}
 				}
 				regs[o.R].Receive(o.Dp.Metric())
 				ops = append(ops, hlib.App("ORecv", hlib.Nat(o.R), o.Dp.Coq()))
@@ -353,6 +378,7 @@ func runProg(em *hlib.Emitter, in input, final int) {
 		if !dead[i] {
 			obs = append(obs, hlib.Pair(hlib.Nat(i), mmgen.Entries(m)))
 			nseries += mmgen.Size(m)
+			c.Monitors = append(c.Monitors, keyMonitor(m)...)
 		}
 	}
 	c.Coq = hlib.App("C07", hlib.Nat(in.NRegs), hlib.List(ops), hlib.List(obs))
@@ -367,7 +393,7 @@ func runProg(em *hlib.Emitter, in input, final int) {
 			familyProjection[in.Family] = p
 		}
 	}
-	c.Obs = map[string]int{"live_series": nseries, "merges": nmerge, "late_receives": nlate, "sources_reread": len(sources)}
+	c.Obs = map[string]int{"live_series": nseries, "merges": nmerge, "late_receives": nlate, "sources_reread": len(sources), "lexed": nlexed}
 	em.Emit(c)
 }
 
@@ -391,29 +417,34 @@ func runCons(em *hlib.Emitter, in input) {
 	var batches []string
 	perWorker := make([][]*prepared, in.Workers)
 	var all []*prepared
-	ndp := 0
+	ndp, nlexed := 0, 0
 	for _, o := range in.Ops {
 		p := &prepared{o: o}
+		if o.Op == "noise" {
+			noise(o.R)
+			continue
+		}
+		if o.Op != "bmap" && o.Op != "bmetrics" {
+			continue
+		}
+		ms, told, nl := metricsOf(o.Dps, o.Lex)
+		nlexed += nl
 		var ds []string
-		for _, d := range o.Dps {
+		for _, d := range told {
 			ds = append(ds, d.Coq())
 		}
 		switch o.Op {
 		case "bmap":
 			var es string
 			p.mm, es = seedMap(o.Seed)
-			for _, d := range o.Dps {
-				p.mm.Receive(d.Metric())
+			for _, m := range ms {
+				p.mm.Receive(m)
 			}
 			p.snap = takeSnap(p.mm)
 			batches = append(batches, hlib.App("BMap", es, hlib.List(ds)))
 		case "bmetrics":
-			for _, d := range o.Dps {
-				p.metrics = append(p.metrics, d.Metric())
-			}
+			p.metrics = ms
 			batches = append(batches, hlib.App("BMetrics", hlib.List(ds)))
-		default:
-			continue
 		}
 		ndp += len(o.Dps)
 		w := o.R % in.Workers
@@ -528,9 +559,10 @@ func runCons(em *hlib.Emitter, in input) {
 		merged = gostatsd.NewMetricMap(false)
 	}
 	c.Coq = hlib.App("C07Cons", hlib.List(batches), mmgen.Entries(merged))
+	c.Monitors = append(c.Monitors, keyMonitor(merged)...)
 	n := mmgen.Size(merged)
 	c.Nontrivial = n >= 2 && len(all) >= 3
-	c.Obs = map[string]int{"live_series": n, "batches": len(all), "datapoints": ndp, "flushes": len(drained)}
+	c.Obs = map[string]int{"live_series": n, "batches": len(all), "datapoints": ndp, "flushes": len(drained), "lexed": nlexed}
 	em.Emit(c)
 }
 
@@ -547,6 +579,7 @@ func runCons(em *hlib.Emitter, in input) {
 type batchSpec struct {
 	Seed []seedEntry
 	Dps  []mmgen.Dp
+	Lex  bool // the datapoints travel as lines through the real lexer and its pool
 }
 
 func genSeed(r *hlib.Rand, hot []mmgen.Dp) []seedEntry {
@@ -630,6 +663,7 @@ func genBatches(r *hlib.Rand, kLo, kHi, nHi int) []batchSpec {
 		for j := 0; j < n; j++ {
 			batches[i].Dps = append(batches[i].Dps, draw())
 		}
+		batches[i].Lex = r.Chance(3, 5)
 	}
 	return batches
 }
@@ -670,7 +704,10 @@ func genFamily(r *hlib.Rand, fam int) []input {
 			}
 			for _, d := range b.Dps {
 				dd := d
-				in.Ops = append(in.Ops, op{Op: "recv", R: i + 1, Dp: &dd})
+				in.Ops = append(in.Ops, op{Op: "recv", R: i + 1, Dp: &dd, Lex: b.Lex})
+			}
+			if r.Chance(1, 4) {
+				in.Ops = append(in.Ops, op{Op: "noise", R: r.Range(2, 6)})
 			}
 			live = append(live, i+1)
 		}
@@ -681,11 +718,12 @@ func genFamily(r *hlib.Rand, fam int) []input {
 		flushLate := func(all bool) {
 			for len(pending) > 0 && (all || r.Chance(1, 2)) {
 				b := batches[pending[0]].Dps
+				lex := batches[pending[0]].Lex
 				pending = pending[1:]
 				dst := live[r.Intn(len(live))]
 				for _, d := range b {
 					dd := d
-					in.Ops = append(in.Ops, op{Op: "recv", R: dst, Dp: &dd})
+					in.Ops = append(in.Ops, op{Op: "recv", R: dst, Dp: &dd, Lex: lex})
 				}
 			}
 		}
@@ -710,8 +748,14 @@ func genFamily(r *hlib.Rand, fam int) []input {
 				live = append([]int{srcs[0]}, rest...)
 			}
 			flushLate(false)
+			if r.Chance(1, 3) {
+				in.Ops = append(in.Ops, op{Op: "noise", R: r.Range(2, 6)})
+			}
 		}
 		flushLate(true)
+		if r.Bool() {
+			in.Ops = append(in.Ops, op{Op: "noise", R: r.Range(2, 6)})
+		}
 		in.Ops = append(in.Ops, op{Op: "mergemaps", R: 0, Srcs: []int{live[0]}})
 		out = append(out, in)
 	}
@@ -722,11 +766,14 @@ func genCons(r *hlib.Rand) input {
 	batches := genBatches(r, 3, 12, 6)
 	in := input{Kind: "cons", Spots: r.Range(1, 5), Workers: r.Range(1, 6), Flushes: r.Range(0, 3), Mode: r.Intn(2)}
 	for _, b := range batches {
-		o := op{Op: "bmap", R: r.Intn(in.Workers), Dps: b.Dps, Seed: b.Seed, Jit: r.Intn(4)}
+		o := op{Op: "bmap", R: r.Intn(in.Workers), Dps: b.Dps, Seed: b.Seed, Jit: r.Intn(4), Lex: b.Lex}
 		if len(b.Seed) == 0 && r.Bool() {
 			o.Op = "bmetrics"
 		}
 		in.Ops = append(in.Ops, o)
+		if r.Chance(1, 4) {
+			in.Ops = append(in.Ops, op{Op: "noise", R: r.Range(2, 6)})
+		}
 	}
 	return in
 }
